@@ -16,10 +16,13 @@ var c01Specs = []famSpec{
 	{Family: "rand-dense", Pool: 200000, PoolQ: 20000},
 	{Family: "near-degenerate", Pool: 60000, PoolQ: 6000},
 	{Family: "lattice", Pool: 100000, PoolQ: 10000},
+	{Family: "rand-mid", Pool: 100000, PoolQ: 5000},
+	{Family: "degenerate", Pool: 60000, PoolQ: 3000},
+	{Family: "big-n-mid", Pool: 1500, PoolQ: 30},
 	{Family: "rand-wide", FreshQ: 6000, FreshT: 300000},
 	{Family: "rectilinear", FreshQ: 3000, FreshT: 100000},
 	{Family: "nested", FreshQ: 2000, FreshT: 60000},
-	{Family: "degenerate", FreshQ: 2000, FreshT: 60000},
+	{Family: "degenerate-wide", FreshQ: 2000, FreshT: 60000},
 	{Family: "big-n", FreshQ: 60, FreshT: 2000},
 }
 
